@@ -24,8 +24,11 @@
 (***************************************************************************)
 EXTENDS Naturals, Sequences, FiniteSets, TLC, Json, IOUtils
 Cases == JsonDeserialize(IOEnv.CASES_FILE)
-VARIABLES cid, l, stack, la, pos, verdict, nrec, lastrec, pend
-vars == <<cid, l, stack, la, pos, verdict, nrec, lastrec, pend>>
+VARIABLES cid, l, stack, la, pos, verdict, nrec, lastrec, pend, laend
+vars == <<cid, l, stack, la, pos, verdict, nrec, lastrec, pend, laend>>
+\* laend: where the pending lookahead ends in the input (its position + its LENGTH -- not the length of its value: an injected token has a
+\* value and length 0); -1 when the recorder did not log it (traces of the LR stage)
+EndOf(ev) == IF "tlen" \in DOMAIN ev /\ ev.tlen >= 0 /\ ev.tpos >= 0 THEN ev.tpos + ev.tlen ELSE 0 - 1
 NoPend == <<>>
 C == Cases[cid]
 Trace == C.lrtrace
@@ -36,17 +39,18 @@ Has(s, sym, a) == \E i \in DOMAIN Acts(s, sym) : Acts(s, sym)[i] = a
 Top == stack[Len(stack)]
 e == Trace[l]
 Step == l' = l + 1 /\ UNCHANGED cid
-Fail(msg) == verdict' = msg /\ UNCHANGED <<stack, la, pos, nrec, lastrec, pend>>
+Fail(msg) == verdict' = msg /\ UNCHANGED <<stack, la, pos, nrec, lastrec, pend, laend>>
 
 \* the scanner runs only when no lookahead is pending (after a shift, or after a recovery that left none)
 Tok == e.e = "tok" /\ Step /\
   IF la # "-" THEN Fail("lr:rescan-with-pending-lookahead")
-  ELSE la' = e.sym /\ pos' = e.pos /\ UNCHANGED <<stack, verdict, nrec, lastrec, pend>>
+  ELSE la' = e.sym /\ pos' = e.pos /\ laend' = EndOf(e) /\ UNCHANGED <<stack, verdict, nrec, lastrec, pend>>
 \* (a lookahead the strategy left although it was scanned BEFORE the position the strategy moved to is stale: the parser drops it)
-Strat == e.e = "strat" /\ Step /\ pend' = <<e.ok, IF e.sym # "-" /\ "tpos" \in DOMAIN e /\ e.tpos < e.pos THEN "-" ELSE e.sym, e.pos>> /\ UNCHANGED <<stack, la, pos, verdict, nrec, lastrec>>
+Strat == e.e = "strat" /\ Step /\ pend' = <<e.ok, IF e.sym # "-" /\ "tpos" \in DOMAIN e /\ e.tpos < e.pos THEN "-" ELSE e.sym, e.pos>> /\ UNCHANGED <<stack, la, pos, verdict, nrec, lastrec, laend>>
 Shift == e.e = "shift" /\ Step /\
   IF ~Has(Top, la, [a |-> "S", to |-> e.st]) THEN Fail("lr:shift-not-in-table")
-  ELSE /\ stack' = Append(stack, e.st) /\ pos' = e.pos /\ la' = "-" /\ UNCHANGED <<verdict, nrec, lastrec, pend>>
+  ELSE IF laend >= 0 /\ e.pos # laend THEN Fail("lr:shift-does-not-advance-to-the-end-of-the-token")
+  ELSE /\ stack' = Append(stack, e.st) /\ pos' = e.pos /\ la' = "-" /\ laend' = 0 - 1 /\ UNCHANGED <<verdict, nrec, lastrec, pend>>
 \* with consume_input off a reduction may be taken from the STOP column when the lookahead has no action
 RedOK(p) == Has(Top, la, [a |-> "R", p |-> p]) \/ (~C.consume /\ Acts(Top, la) = <<>> /\ Has(Top, "STOP", [a |-> "R", p |-> p]))
 Reduce == e.e = "reduce" /\ Step /\
@@ -56,14 +60,14 @@ Reduce == e.e = "reduce" /\ Step /\
   ELSE LET below == stack[Len(stack) - k] IN
        IF Prod(e.p).lhs \notin DOMAIN State(below).gotos THEN Fail("lr:no-goto")
        ELSE IF State(below).gotos[Prod(e.p).lhs] # e.st THEN Fail("lr:wrong-goto")
-       ELSE stack' = Append(SubSeq(stack, 1, Len(stack) - k), e.st) /\ UNCHANGED <<la, pos, verdict, nrec, lastrec, pend>>
+       ELSE stack' = Append(SubSeq(stack, 1, Len(stack) - k), e.st) /\ UNCHANGED <<la, pos, verdict, nrec, lastrec, pend, laend>>
 Accept == e.e = "accept" /\ Step /\
-  IF Has(Top, la, [a |-> "A"]) \/ (~C.consume /\ Acts(Top, la) = <<>> /\ Has(Top, "STOP", [a |-> "A"])) THEN UNCHANGED <<stack, la, pos, verdict, nrec, lastrec, pend>>
+  IF Has(Top, la, [a |-> "A"]) \/ (~C.consume /\ Acts(Top, la) = <<>> /\ Has(Top, "STOP", [a |-> "A"])) THEN UNCHANGED <<stack, la, pos, verdict, nrec, lastrec, pend, laend>>
   ELSE Fail("lr:accept-not-in-table")
 Error == e.e = "error" /\ Step /\
   IF la # "-" /\ Acts(Top, la) # <<>> THEN Fail("lr:error-although-action-exists")
-  ELSE UNCHANGED <<stack, la, pos, verdict, nrec, lastrec, pend>>
-Recover == e.e = "recover" /\ Step /\ nrec' = nrec + 1 /\ UNCHANGED stack /\ pend' = NoPend /\
+  ELSE UNCHANGED <<stack, la, pos, verdict, nrec, lastrec, pend, laend>>
+Recover == e.e = "recover" /\ Step /\ nrec' = nrec + 1 /\ UNCHANGED stack /\ pend' = NoPend /\ laend' = (IF e.ok THEN EndOf(e) ELSE laend) /\
   IF pend # NoPend /\ (e.ok # pend[1] \/ (e.ok /\ (e.sym # pend[2] \/ e.pos # pend[3])))
   THEN verdict' = "C11:parser-does-not-continue-from-what-the-strategy-left" /\ UNCHANGED <<la, pos, lastrec>>
   \* a successful recovery resumes with no lookahead (it is scanned next) or with a token AT OR AFTER the resume position: a lookahead that
@@ -77,7 +81,7 @@ Recover == e.e = "recover" /\ Step /\ nrec' = nrec + 1 /\ UNCHANGED stack /\ pen
        /\ pos' = (IF e.ok THEN e.pos ELSE pos)
        /\ lastrec' = (IF e.ok THEN <<e.pos, e.sym, stack>> ELSE lastrec)
        /\ UNCHANGED verdict
-Init == cid \in DOMAIN Cases /\ l = 1 /\ stack = <<0>> /\ la = "-" /\ pos = 0 /\ verdict = "ok" /\ nrec = 0 /\ lastrec = <<>> /\ pend = NoPend
+Init == cid \in DOMAIN Cases /\ l = 1 /\ stack = <<0>> /\ la = "-" /\ pos = 0 /\ verdict = "ok" /\ nrec = 0 /\ lastrec = <<>> /\ pend = NoPend /\ laend = 0 - 1
 Next == verdict = "ok" /\ l <= Len(Trace) /\ (Tok \/ Shift \/ Reduce \/ Accept \/ Error \/ Recover \/ Strat)
 Spec == Init /\ [][Next]_vars
 Report == (verdict # "ok" \/ l > Len(Trace)) => PrintT(<<"TRACE", C.cix, verdict, l, nrec>>)
